@@ -7,6 +7,7 @@ import (
 	"go/ast"
 	"go/token"
 	"go/types"
+	"golang.org/x/tools/go/ssa"
 	"strings"
 )
 
@@ -409,31 +410,44 @@ var ruleG4 = &Rule{
 		if fd == nil {
 			return []Obl{{Key: "clickhouse_planner.GetTypes", Pos: "-", Status: Undecided, Msg: "anchor not found"}}
 		}
-		info := p.TypesInfo
-		fi := &FuncInfo{Pkg: p, Decl: fd}
+		_ = p
 		okCol, okType := false, false
-		ast.Inspect(fd.Body, func(n ast.Node) bool {
-			r, ok := n.(*ast.ReturnStmt)
-			if !ok || len(r.Results) != 1 {
-				return true
-			}
-			call, ok := r.Results[0].(*ast.CallExpr)
-			if !ok {
-				return true
-			}
-			if o := calleeObj(info, call); o == nil || objPkgPath(o) != pkgSQL || o.Name() != "NewIn" || len(call.Args) < 2 {
-				return true
-			}
-			if strings.Contains(c.normText(call.Args[0]), `"type"`) {
-				okCol = true
-			}
-			for _, a := range call.Args[1:] {
-				if c.mentionsField(fi, a, "PlannerContext", "Type", 0) {
-					okType = true
+		if gt := c.SSAFunc("reader/logql/logql_transpiler_v2/clickhouse_planner", "GetTypes"); gt != nil {
+			for _, r := range returnsOf(gt) {
+				if len(r.Results) != 1 {
+					continue
 				}
+				// the returned condition is (derived from) a call of sql.NewIn(column, values…)
+				dependsOnValue(r.Results[0], func(v ssa.Value) bool {
+					call, ok := v.(*ssa.Call)
+					if !ok {
+						return false
+					}
+					sc := call.Common().StaticCallee()
+					if sc == nil || sc.Pkg == nil || sc.Pkg.Pkg.Path() != pkgSQL || sc.Name() != "NewIn" || len(call.Common().Args) < 2 {
+						return false
+					}
+					// column: a raw object built from the constant "type"
+					if dependsOnValue(call.Common().Args[0], func(x ssa.Value) bool {
+						s, ok := constStr(x)
+						return ok && s == "type"
+					}, map[ssa.Value]bool{}, 0) {
+						okCol = true
+					}
+					// values: one of them derives from PlannerContext.Type
+					if dependsOnValue(call.Common().Args[1], func(x ssa.Value) bool {
+						var fa *ssa.FieldAddr
+						if u, ok := x.(*ssa.UnOp); ok {
+							fa, _ = u.X.(*ssa.FieldAddr)
+						}
+						return fa != nil && strings.HasSuffix(fieldKey(fa.X.Type(), fa.Field), "PlannerContext.Type")
+					}, map[ssa.Value]bool{}, 0) {
+						okType = true
+					}
+					return true
+				}, map[ssa.Value]bool{}, 0)
 			}
-			return true
-		})
+		}
 		st, msg := OK, "type IN (f(ctx.Type), …)"
 		if !okCol || !okType {
 			st, msg = Violation, "GetTypes no longer builds `type IN (…)` from PlannerContext.Type: every read that relies on it loses its signal filter"
